@@ -6,6 +6,7 @@ import (
 	"go/token"
 	"go/types"
 	"os"
+	"regexp"
 	"sort"
 	"strconv"
 	"strings"
@@ -1214,7 +1215,76 @@ func (g *Gen) bindParams(fr *Frame, fresh bool) []Term {
 			fr.params["&"+fv.Name()] = Binding{t, goTy(fv.Type())}
 		}
 	}
+	g.bindUncaptured(fr)
 	return terms
+}
+
+// bindUncaptured makes the variables of the enclosing functions that a function literal's contract mentions
+// but the literal does not capture (any more) available to the contract, as unconstrained values of their
+// type: a closure contract speaks about all values of the enclosing variables, so a clause that relates the
+// closure's effect to such a variable then fails with a model instead of leaving the contract unbound.
+func (g *Gen) bindUncaptured(fr *Frame) {
+	fn, fc := fr.fn, fr.contract
+	if fn.Parent() == nil || fc == nil || fn.Syntax() == nil || fn.Pkg == nil || fc.File == "" {
+		return
+	}
+	idents := contractIdents(fc)
+	if len(idents) == 0 {
+		return
+	}
+	pos := fn.Syntax().Pos()
+	pkgScope := fn.Pkg.Pkg.Scope()
+	sc := pkgScope.Innermost(pos)
+	captured := map[string]bool{}
+	for _, fv := range fn.FreeVars {
+		captured[fv.Name()] = true
+	}
+	for ; sc != nil && sc != pkgScope && sc != types.Universe; sc = sc.Parent() {
+		if sc.Parent() == pkgScope {
+			break // file scope: imports
+		}
+		for _, name := range sc.Names() {
+			if !idents[name] || captured[name] {
+				continue
+			}
+			if _, ok := fr.params[name]; ok {
+				continue
+			}
+			v, ok := sc.Lookup(name).(*types.Var)
+			if !ok || v.Pos() >= pos {
+				continue
+			}
+			t := g.sc.Fresh("uv_"+name, g.sortOf(v.Type()))
+			g.sc.Assume(g.typeInv(t.S, v.Type()))
+			fr.params[name] = Binding{t, goTy(v.Type())}
+			fmt.Fprintf(os.Stderr, "NOTE %s: enclosing variable %s is not captured by the function literal; its contract reads it as an unconstrained value\n", fn.String(), name)
+		}
+	}
+}
+
+var identRe = regexp.MustCompile(`[A-Za-z_][A-Za-z0-9_]*`)
+
+// contractIdents returns the identifiers that occur in the text of a contract block.
+func contractIdents(fc *FuncContract) map[string]bool {
+	data, err := os.ReadFile(fc.File)
+	if err != nil {
+		return nil
+	}
+	lines := strings.Split(string(data), "\n")
+	out := map[string]bool{}
+	for i := fc.Line - 1; i >= 0 && i < len(lines); i++ {
+		l := strings.TrimSpace(lines[i])
+		if !strings.HasPrefix(l, "//@") || (i > fc.Line-1 && strings.HasPrefix(l, "//@ ") && !strings.HasPrefix(l, "//@  ")) {
+			break
+		}
+		if i == fc.Line-1 {
+			continue // the header names the receiver and the parameters
+		}
+		for _, id := range identRe.FindAllString(l, -1) {
+			out[id] = true
+		}
+	}
+	return out
 }
 
 func (fr *Frame) resultNames() []string {
